@@ -524,6 +524,10 @@ def run(prop: str, tier: str, only=None) -> Result:
         rng = random.Random(base + 100_000 + j)
         sp = gen.random_spec(rng, rng.randint(lo, hi))
         sampled.append((sp, (base + 200_000 + j, per_big), MODES))
+    # larger trees (long sibling runs / long chains): paths that depend on the size of a level or of the branch
+    n_large = 45 if quick else 300
+    for j, sp in enumerate(gen.big_specs(base, n_large)):
+        sampled.append((sp, (base + 300_000 + j, 12 if quick else 30), MODES))
     # cost of an exhaustive item grows as 6^n: split the 4-node ones finely by sorting big first
     items.sort(key=lambda it: len(it[0]), reverse=True)
     total = Result(prop)
@@ -536,6 +540,7 @@ def run(prop: str, tier: str, only=None) -> Result:
         f"x ALL 6^n assignments of {{T,F,SkipBranch,SkipBranch(and_self=False),SelectBranch,StopTraversal}} (branch level: all assignments over the branch) "
         f"x delivery {{returned instance, raised instance, raised class / StopIteration}}; control classes returned: forests <= {n_cls} nodes; "
         + (f"sampled: every 4-node spec x 120 seeded assignments, {n_big} random trees with 5..6 nodes x {per_big} assignments" if quick else f"sampled: every 4-node equal-data-pair spec x 150 seeded assignments, {n_big} random trees with 5..6 nodes x {per_big} seeded assignments")
+        + f"; {n_large} larger seeded trees with 18..60 nodes (long sibling runs, long chains, mixed; 15% repeated labels) x {12 if quick else 30} assignments"
         + f" (VERIF_SEED={seed()})"
     )
     return total
